@@ -73,13 +73,16 @@ func c13Run(t *testing.T, root string, sc c13Scenario, mk func() *Model, plan fa
 		if plan.End == "werr" {
 			c.outFailAt = plan.WFail
 		}
+		if plan.End == "rstw" {
+			c.outCap = 4096
+		}
 		synctest.Wait()
 		sent := 0
 		faulted := len(plan.At) > 0
 		ended := false
 		for i, rq := range sc.reqs {
 			b := rq.Encode()
-			if plan.End != "" && plan.End != "werr" && sent+len(b) > plan.Cut {
+			if plan.End != "" && plan.End != "werr" && plan.End != "rstw" && sent+len(b) > plan.Cut {
 				// deliver the partial request, then end the connection
 				part := b[:plan.Cut-sent]
 				c.Send(part)
@@ -112,6 +115,38 @@ func c13Run(t *testing.T, root string, sc c13Scenario, mk func() *Model, plan fa
 				}
 				ended = true
 				break
+			}
+			if plan.End == "rstw" {
+				// the client receives through a 4096-byte window and resets the connection once it has taken WFail
+				// response bytes: the server is typically blocked in the middle of writing a response then
+				c.Send(b)
+				sent += len(b)
+				synctest.Wait()
+				st := StepObs{Req: rq.String()}
+				for {
+					x := c.Take()
+					res.stream = append(res.stream, x...)
+					if int64(len(res.stream)) >= plan.WFail {
+						c.Rst()
+						synctest.Wait()
+						ended = true
+						break
+					}
+					synctest.Wait()
+					if len(x) == 0 {
+						break
+					}
+				}
+				st.Closed = c.ServerClosed()
+				res.steps = append(res.steps, st)
+				if ended || st.Closed {
+					if !st.Closed {
+						fail("end:rstw:not-closed", sprintf("after a reset in the middle of the response to request %d %s (after %d response bytes) the server did not close the connection", i, rq, len(res.stream)))
+					}
+					ended = true
+					break
+				}
+				continue
 			}
 			m.Pre(rq)
 			resp, closed := s.Exchange(c, b)
@@ -264,7 +299,7 @@ func c13PrefixOK(m *Model, rq Req, resp []byte) bool {
 func TestC13(t *testing.T) {
 	r := NewReporter(t)
 	defer r.Done()
-	r.Rule("12 scenarios (plain reads with the default, a 1000-byte and no pooled transfer buffer, generated image DVD/PS3 with lazily opened members, redump with adjacent and with both keys, 3k3y, directory enumeration with symlinks, create/write/delete, dir-size, CD reads); per scenario: fault-free run numbers the N leaf filesystem operations, then an injected error (EIO, EINTR, EAGAIN) at every index, a legal short read (1 byte / half) at every Read, a short read followed by EINTR/EAGAIN at the next operations, thorough: every pair of errors (i<j); and connection endings FIN / RST / idle timeout at every script byte position class and write failure at every response byte position class; oracles: handle ledger empty after the connection ended, connection closed, fresh connection served, responses = model answer | failure code | correct prefix + disconnect; distinct by (scenario, deviation)")
+	r.Rule("12 scenarios (plain reads with the default, a 1000-byte and no pooled transfer buffer, generated image DVD/PS3 with lazily opened members, redump with adjacent and with both keys, 3k3y, directory enumeration with symlinks, create/write/delete, dir-size, CD reads); per scenario: fault-free run numbers the N leaf filesystem operations, then an injected error (EIO, EINTR, EAGAIN) at every index, a legal short read (1 byte / half) at every Read, a short read followed by EINTR/EAGAIN at the next operations, thorough: every pair of errors (i<j); and connection endings FIN / RST / idle timeout at every script byte position class write failure at every response byte position class, and a reset by a slowly receiving client (4096-byte send buffer, server blocked in Write) at every response byte position class; oracles: handle ledger empty after the connection ended, connection closed, fresh connection served, responses = model answer | failure code | correct prefix + disconnect; distinct by (scenario, deviation)")
 	w, objs := buildC02World(t, r)
 	defer w.Cleanup()
 	// extras: both-keys image, directory with symlinks, writable dir, CD image
@@ -473,6 +508,22 @@ func TestC13(t *testing.T) {
 					res.why, res.sig = sprintf("writes fail after %d response bytes but the client received %d", wf, len(res.stream)), "werr-length"
 				} else if !sc.noF && !bytes.Equal(res.stream, base.stream[:wf]) {
 					res.why, res.sig = "bytes received before the write failure differ from the fault-free stream: "+describeDiff(res.stream, base.stream[:wf]), "werr-bytes"
+				}
+			}
+			judge(p, res, "end")
+		}
+		// (5) reset by a client that receives slowly (bounded send buffer), at every response byte position class
+		for _, wf := range rb {
+			idx++
+			if !r.Mine(idx) || wf >= total || wf == 0 {
+				continue
+			}
+			p := faultPlan{End: "rstw", WFail: wf}
+			res := c13Run(t, w.Root, sc, mk, p, resetW)
+			if res.why == "" && !sc.noF {
+				n := min(len(res.stream), len(base.stream))
+				if len(res.stream) > len(base.stream) || !bytes.Equal(res.stream[:n], base.stream[:n]) {
+					res.why, res.sig = "bytes received before the reset differ from the fault-free stream: "+describeDiff(res.stream[:n], base.stream[:n]), "rstw-bytes"
 				}
 			}
 			judge(p, res, "end")
